@@ -91,10 +91,17 @@ type Pt struct {
 // Trace records, per (archive, class), who wrote it last: 'd' a direct write,
 // 'p' a propagation.  It lets a check attribute a mismatch to the right clause.
 type Trace struct {
-	Last map[[2]uint32]byte
+	Last  map[[2]uint32]byte
+	Stats map[string]int64 // propagation decisions by class (vacuity counters)
 }
 
-func NewTrace() *Trace { return &Trace{Last: map[[2]uint32]byte{}} }
+func NewTrace() *Trace { return &Trace{Last: map[[2]uint32]byte{}, Stats: map[string]int64{}} }
+
+func (t *Trace) stat(k string) {
+	if t != nil {
+		t.Stats[k]++
+	}
+}
 
 func put(tr *Trace, kind byte, id int, a wsp.Arch, r wsp.Ring, interval int64, v float64) {
 	c := uint32(interval/int64(a.Step)) % a.N
@@ -195,10 +202,23 @@ func Propagate(l wsp.Layout, rings []wsp.Ring, from int, written []int64, tr *Tr
 				}
 			}
 			if len(vals) == 0 {
+				tr.stat("prop_no_known_value")
 				continue
 			}
 			if float32(len(vals))/float32(ratio) < l.XFF {
+				tr.stat("prop_below_xff")
 				continue
+			}
+			if int64(len(vals)) < ratio {
+				tr.stat("prop_stored_partially_known")
+				if float32(len(vals)-1)/float32(ratio) < l.XFF {
+					tr.stat("prop_stored_exactly_at_xff_boundary")
+				}
+			} else {
+				tr.stat("prop_stored_fully_known")
+			}
+			if _, ok := rings[lvl][uint32(T/int64(lo.Step))%lo.N]; ok {
+				tr.stat("prop_overwrote_existing_slot")
 			}
 			put(tr, 'p', lvl, lo, rings[lvl], T, Aggregate(l.Method, vals))
 			stored = append(stored, T)
